@@ -14,7 +14,7 @@ from pyvc.contracts import (Any, Bool, Bytes, Callback, Const, DequeOf, Event, I
                             Opt, TupleOf, contract, iff, implies, ite, lemma, model)
 from pyvc.ext_c20 import ConcDict
 from contracts.c18_codecs import RF_USES
-from contracts.c20_rfcomm import both_dirs, dir_inv, wf_dlc, QMAX
+from contracts.c20_rfcomm import both_dirs, dir_inv, wf_dlc, QMAX, WF_NAMES
 from spec.rfcomm import FT_DISC, FT_DM, FT_SABM, FT_UA, FT_UIH, MCC_MSC, MCC_PN, mcc, msc_value, pn_value
 
 ENVIRONMENT = [
@@ -67,7 +67,7 @@ INIT = dict(
         self.c_r == (1 if multiplexer.role == ROLE.INITIATOR else 0) and self.role == multiplexer.role,
         self.connection_result is None and self.disconnection_result is None,
     ],
-    ensures_names=['wf-mtu', 'wf-tx', 'wf-rx', 'wf-max', 'wf-thr', 'tx-from-peer', 'rx-from-local', 'mtu', 'idle', 'state-init', 'c_r-by-role', 'no-futures'],
+    ensures_names=WF_NAMES + ['tx-from-peer', 'rx-from-local', 'mtu', 'idle', 'state-init', 'c_r-by-role', 'no-futures'],
     modifies=['self.*'],
 )
 contract('bumble.rfcomm:DLC.__init__', prop='C20', **INIT)
